@@ -154,6 +154,42 @@ theorem noKills_fresh_range (n : Nat) (d : Dest) : NoKills ((List.range n).map f
   obtain ⟨j, _, rfl⟩ := hx
   exact hk
 
+theorem safe_gather {inp : Input} {a : Nat} {idx : List Nat} {d : Dest} (hc : catIn inp a anyCat = true)
+    (hb : ∀ i ∈ idx, i < inp.size a) (hnd : idx.Nodup) (hd : DestOk inp d) :
+    Safe inp (gather a idx (fwd (inp.isRv a)) d) := by
+  cases h : inp.isRv a
+  · refine ⟨?_, ?_⟩
+    · intro x hx
+      simp only [gather, List.mem_map] at hx
+      obtain ⟨i, hi, rfl⟩ := hx
+      exact (ok_xfer_copy inp a i d).2 ⟨lvcr_of_any hc h, hb i hi, hd⟩
+    · apply clean_of_no_kills
+      intro x hx b j hk
+      simp only [gather, List.mem_map] at hx
+      obtain ⟨i, hi, rfl⟩ := hx
+      exact hk
+  · refine ⟨?_, ?_⟩
+    · intro x hx
+      simp only [gather, List.mem_map] at hx
+      obtain ⟨i, hi, rfl⟩ := hx
+      exact (ok_xfer_move inp a i d).2 ⟨not_lvcr_of_rv h, hb i hi, hd⟩
+    · unfold Clean gather
+      rw [List.pairwise_map]
+      refine List.Pairwise.imp ?_ hnd
+      rintro i j hij b k ⟨rfl, rfl⟩ ⟨_, h2⟩
+      exact hij h2.symm
+
+/-- two containers forwarded element-wise, one after the other -/
+theorem safe_fwd2 {inp : Input} {d : Dest} (h0 : catIn inp 0 anyCat = true) (h1 : catIn inp 1 anyCat = true) (hd : DestOk inp d) :
+    Safe inp (xferAll 0 (inp.size 0) (fwd (inp.isRv 0)) d ++ xferAll 1 (inp.size 1) (fwd (inp.isRv 1)) d) :=
+  safe_append (safe_xferAll_fwd h0 (Nat.le_refl _) hd) (safe_xferAll_fwd h1 (Nat.le_refl _) hd)
+    (cross_of_args (onArg_xferAll _ _ _ _) (onArg_xferAll _ _ _ _) (by decide))
+
+theorem anyCat_of_rv {inp : Input} {a : Nat} (h : catIn inp a [.rv] = true) : catIn inp a anyCat = true := by
+  obtain ⟨c, hc, hm⟩ := (catIn_iff inp a _).1 h
+  simp at hm; subst hm
+  exact (catIn_iff inp a anyCat).2 ⟨.rv, hc, by simp [anyCat]⟩
+
 theorem safe_deriveEach {inp : Input} {a : Nat} {ks : List Nat} {d : Dest} (hn : ks.length ≤ inp.size a)
     (hd : DestOk inp d) : Safe inp (deriveEach a ks d) := by
   refine ⟨(forall_mem_deriveEach _ _ _ _).2 fun i k hk => (ok_derive inp a i k d).2 ⟨?_, hd⟩, ?_⟩
